@@ -345,6 +345,7 @@ def decode(buf, off=0):
         i.lit = cnt          # register count A as encoded
         if fmt == "45cc":
             i.ref2 = u[3]
+            i.strict_ok = 1 <= cnt <= 5      # the 45cc format table has no [A=0] form (the receiver is an argument)
     elif fmt in ("3rc", "4rcc"):
         i.ref = u[1]
         i.regs = list(range(u[2], u[2] + hi))
